@@ -66,11 +66,13 @@ ASSUMPTIONS = [
     "procedure outside them (ctfTRu_no_internal_error_partial: validated input, no self-intervened variable together with a "
     "valueless variable, plain event variables as built by the public wrapper, every domain graph keeps the target's "
     "bidirected edges between non-policy variables and has no bidirected edge at a selection node => answer or FAIL, no "
-    "error); for Algorithm 3 PROVED relative to the Prop QGood (ctfTR_no_internal_error_of_parts: validated input, plain query "
-    "variables, DomainsAgree, every outcome found in the ancestral components under its own name, D* names each vertex in one "
-    "world, no outcome shares its vertex with a condition, every vertex is a variable of some domain distribution, and QGood = "
-    "the expression Q of Algorithm 2 is not Zero() and mentions only graph vertices and variables of the domain distributions; "
-    "QGood is decided by running lines 1-3 for a concrete input: ctfTR_no_internal_error_partial) - OPEN without QGood; the "
+    "error); for Algorithm 3 PROVED outside its crash classes (ctfTR_no_internal_error_partial: validated input, plain query "
+    "variables, DomainsAgree, every vertex is a variable of some domain distribution (PopsCoverNodes, true of PP[pi](V)), and "
+    "three decidable predicates on the input: OutcomesFound = every outcome is found in the ancestral components under its own "
+    "name, DstarOneWorld = D* names each vertex in one world, OutcomeNotCondition = no outcome shares its vertex with a "
+    "condition; the facts about Algorithm 2's expression Q - never Zero(), only graph vertices and variables of the domain "
+    "distributions - are proved: ctfTR_q_good). FALSE without OutcomesFound (known findings; Lean witness a3Miss); OPEN "
+    "whether DstarOneWorld / OutcomeNotCondition are needed (no exception was ever observed with OutcomesFound true); the "
     "oracle reports every exception after validation",
     "failures on inputs with the syntactic signature of an open finding AND its kind of outcome (wrong value / wrong zero / "
     "exception class at a named check) are attributed to that finding by class key (17 keys; signature computed on the "
@@ -922,7 +924,7 @@ MANIFEST = {
     "text": ("Partial. Lean theorems about the model Y0.Model.CtfTr of api.py (validators of ctfTRu / ctfTR as decision "
              "functions, Algorithm 4, Algorithm 2 composed from the `ctf` family's models of SIMPLIFY / counterfactual "
              "ancestors / ancestral components / ctf-factors and the `tian` family's model of IDENTIFY; Algorithm 3 complete: "
-             "derivation of D*, Algorithm 2 on it, line 4 and the five final checks), 39 theorems in Props/C09: the validators reject with the documented classes only and an accepted "
+             "derivation of D*, Algorithm 2 on it, line 4 and the five final checks), 40 theorems in Props/C09: the validators reject with the documented classes only and an accepted "
              "input has the stated shape (validateU_error_class, validateC_error_class, validateU_accepts, validateC_strict); "
              "an 'invalid input' outcome is exactly a rejection by the procedure's own validator and an accepted input is "
              "answered, refused, or ends in a non-validation error (ctfTRu_invalid_iff, ctfTRu_trichotomy, "
@@ -935,13 +937,14 @@ MANIFEST = {
              "node on its district (ctfTRu_event_is_simplified, sigmaTR_uses_usable_domain, transportFactors_all); outside the "
              "known crash classes the unconditional procedure never raises (ctfTRu_no_internal_error_partial with "
              "simplify_no_error_outside_risk, line2_total, sigmaTRDomain_no_error, transportFactors_no_error), the conditional procedure never raises outside its "
-             "crash classes relative to two facts about Algorithm 2's expression (ctfTR_no_internal_error_of_parts / _partial: "
-             "outcomes found in the ancestral components, one world, no outcome that is also a condition; QGood), and an "
+             "crash classes (ctfTR_no_internal_error_partial: outcomes found in the ancestral components under their own name, "
+             "one world in D*, no outcome that is also a condition; with ctfTR_q_good: the expression Q of Algorithm 2 is never "
+             "Zero() and mentions only graph vertices and variables of the domain distributions), and an "
              "expression returned by Algorithm 4 denotes Q[district] of the domain's model (sigmaTR_sound, via C17 "
              "cfactor_sound / tian_sound). NOT "
              "proved, and FALSE of the current code on the inputs of the 17 open findings (known_findings.jsonl, class keys "
              "with minimal witnesses): the value clause (ctfTRu_sound / ctfTR_sound) and the absence of non-validation errors "
-             "(ctf_no_internal_error in full: Algorithm 3 without QGood, and the crash classes). These clauses are decided on every run by the correspondence (validators exact; "
+             "(ctf_no_internal_error in full: false on the crash classes of the findings, open on two further input classes of Algorithm 3). These clauses are decided on every run by the correspondence (validators exact; "
              "Algorithms 2 and 3: verdict, returned event and exact value of the expression) and by the exact functional-SCM "
              "oracle (noise-space enumeration of P*(event), policies as fresh mechanisms): trichotomy, zero-soundness and "
              "value on every answered case."),
